@@ -865,3 +865,275 @@ def rule_p1_fsa(ctx, min_ops=18):
                 f"{inst} is documented non-mutating but `{m.target}` is "
                 f"rooted at self here ({m.kind}): the original automaton "
                 "changes", instance=inst)
+
+
+# ---------------------------------------------------------------------------
+# V1p: views built from a caller's container are copied deep enough
+
+
+INF = 99
+
+
+def fresh_levels(e, env, fdefs=None):
+    """How many top nesting levels of the value of e are freshly created
+    (not shared with a parameter)?  INF for immutable / fully copied."""
+    if isinstance(e, ast.Constant):
+        return INF
+    if isinstance(e, ast.Name):
+        return env.get(e.id, 0)
+    if isinstance(e, ast.Call):
+        n = dotted(e.func)
+        if n in ("copy.deepcopy", "deepcopy"):
+            return INF
+        if n in ("dict", "list", "set", "tuple", "sorted", "copy.copy",
+                 "OrderedDict") and e.args:
+            inner = fresh_levels(e.args[0], env, fdefs)
+            return INF if inner >= INF else 1 + _elem(inner)
+        if n in ("defaultdict", "collections.defaultdict"):
+            if len(e.args) >= 2:
+                inner = fresh_levels(e.args[1], env, fdefs)
+                return INF if inner >= INF else 1 + _elem(inner)
+            return INF
+        if isinstance(e.func, ast.Attribute) and e.func.attr == "copy":
+            inner = fresh_levels(e.func.value, env, fdefs)
+            return INF if inner >= INF else 1 + _elem(inner)
+        if fdefs is not None and n in fdefs:
+            callee = fdefs[n]
+            cenv = {}
+            for p, a in zip(callee.params, e.args):
+                cenv[p] = fresh_levels(a, env, fdefs)
+            rets = [x for x in ast.walk(callee.node)
+                    if isinstance(x, ast.Return) and x.value is not None]
+            if rets:
+                return min(fresh_levels(x.value, cenv, fdefs) for x in rets)
+        return 0
+    if isinstance(e, (ast.DictComp, ast.ListComp, ast.SetComp)):
+        cenv = dict(env)
+        for g in e.generators:
+            it = g.iter
+            base = it
+            if isinstance(it, ast.Call) and isinstance(it.func, ast.Attribute) \
+                    and it.func.attr in ("items", "values", "keys"):
+                base = it.func.value
+            fl = fresh_levels(base, cenv, fdefs)
+            el = INF if fl >= INF else _elem(fl)
+            if isinstance(g.target, ast.Tuple) and len(g.target.elts) == 2:
+                if isinstance(g.target.elts[0], ast.Name):
+                    cenv[g.target.elts[0].id] = INF      # keys are immutable
+                if isinstance(g.target.elts[1], ast.Name):
+                    cenv[g.target.elts[1].id] = el
+            elif isinstance(g.target, ast.Name):
+                cenv[g.target.id] = el if not (
+                    isinstance(it, ast.Call) and isinstance(it.func, ast.Attribute)
+                    and it.func.attr == "keys") else INF
+        val = e.value if isinstance(e, ast.DictComp) else e.elt
+        inner = fresh_levels(val, cenv, fdefs)
+        return INF if inner >= INF else 1 + inner
+    if isinstance(e, (ast.Dict, ast.List, ast.Set, ast.Tuple)):
+        vals = e.values if isinstance(e, ast.Dict) else e.elts
+        if not vals:
+            return INF
+        inner = min(fresh_levels(v, env, fdefs) for v in vals)
+        return INF if inner >= INF else 1 + inner
+    return 0
+
+
+def _elem(fl):
+    """fresh levels of an element of a container with `fl` fresh levels"""
+    return max(fl - 1, 0)
+
+
+NEED = {"out": 3, "in": 3, "graph": 2}
+
+
+def rule_v1p(ctx):
+    r = ctx.r
+    r.rule("V1p", "a view built from a caller-supplied container is copied "
+                  "to the depth of its mutable nesting (dict -> dict -> "
+                  "list needs three fresh levels, the label view two): "
+                  "otherwise later in-place edits leak between the "
+                  "automaton, the caller's dictionary and other automata "
+                  "built from it, and the views stop agreeing")
+    cls = fsa_class(ctx)
+    fdefs = {}
+    for name, f in cls.methods.items():
+        fdefs[f"FSA.{name}"] = f
+        fdefs[f"self.{name}"] = f
+    n = 0
+    for f in cls.methods.values():
+        params = [p for p in f.params if p not in ("self", "cls")]
+        if not params:
+            continue
+        for st in ast.walk(f.node):
+            if not isinstance(st, ast.Assign):
+                continue
+            for t in st.targets:
+                v = view_of(t)
+                if v is None or not isinstance(t, ast.Attribute):
+                    continue
+                # does the value depend on a parameter at all?
+                names = {x.id for x in ast.walk(st.value)
+                         if isinstance(x, ast.Name)}
+                dep = names & set(params)
+                if not dep:
+                    # via a helper call whose args are parameters -> handled
+                    continue
+                n += 1
+                r.analysed(f)
+                env = {p: 0 for p in params}
+                fl = fresh_levels(st.value, env, fdefs)
+                inst = f"{f.qualname}:{norm_stmt(st)[:70]}"
+                if fl >= NEED[v]:
+                    r.ok("V1p", inst, loc(f, st), norm_stmt(st)[:120],
+                         f"{'fully' if fl >= INF else fl} fresh level(s); "
+                         f"{NEED[v]} needed for the {v} view")
+                else:
+                    r.violation(
+                        "V1p", f"{f.fq}|{norm_stmt(st)[:100]}", loc(f, st),
+                        norm_stmt(st)[:160],
+                        f"the {v} view is built from parameter(s) "
+                        f"{sorted(dep)} with only {fl} freshly created "
+                        f"nesting level(s) where {NEED[v]} are mutable: the "
+                        "inner label lists stay shared with the caller's "
+                        "dictionary (and with every other automaton built "
+                        "from it), so add_edges on one changes the outgoing "
+                        "view of the other while its incoming and label "
+                        "views stay put", instance=inst)
+    if n == 0:
+        r.note("V1p", FSA_REL, "FSA", "no view is built directly from a "
+               "parameter; nothing to check")
+
+
+# ---------------------------------------------------------------------------
+# RF1: the pruning in recurrent() is a fixpoint
+
+
+def rule_rf1(ctx):
+    r = ctx.r
+    r.rule("RF1", "recurrent() prunes to a fixpoint: either it rescans a "
+                  "fresh snapshot of all vertices until a full pass deletes "
+                  "nothing, or a worklist re-queues BOTH the in- and the "
+                  "out-neighbours of every deleted vertex; the dead-end test "
+                  "looks at both the outgoing and the incoming view")
+    f = ctx.p.get_function(FSA_REL, "FSA.recurrent")
+    r.analysed(f)
+    parents = f.module.parents
+    dels = [n for n in ast.walk(f.node) if isinstance(n, ast.Call)
+            and isinstance(n.func, ast.Attribute)
+            and n.func.attr in ("delete_vertex", "delete_vertices")]
+    if not dels:
+        raise AnalysisError("FSA.recurrent: no delete_vertex call")
+    d = dels[0]
+    # guarding condition
+    cond = None
+    loops = []
+    cur = d
+    while cur is not f.node:
+        par = parents[cur]
+        if isinstance(par, ast.If) and cond is None and cur in par.body:
+            cond = par
+        if isinstance(par, (ast.While, ast.For)):
+            loops.append(par)
+        cur = par
+    inst = "FSA.recurrent"
+    if cond is None:
+        r.violation("RF1", f"{f.fq}|unguarded", loc(f, d), dotted(d),
+                    "vertices are deleted without a dead-end test",
+                    instance=inst)
+        return
+    ctext = dotted(cond.test)
+    both = ("_out_dict" in ctext or "neighbors_out" in ctext) and (
+        "_in_dict" in ctext or "neighbors_in" in ctext)
+    if not both:
+        r.violation(
+            "RF1", f"{f.fq}|condition", loc(f, cond), ctext[:140],
+            "the dead-end test does not look at both views: vertices "
+            "lacking an incoming (or an outgoing) edge survive the pruning",
+            instance=inst + ":condition")
+    else:
+        r.ok("RF1", inst + ":condition", loc(f, cond), ctext[:120],
+             "tests both the outgoing and the incoming view")
+    whiles = [l for l in loops if isinstance(l, ast.While)]
+    if not whiles:
+        r.violation(
+            "RF1", f"{f.fq}|single-pass", loc(f, d), dotted(d),
+            "deletion happens in a single pass: deleting a vertex can "
+            "create new dead ends that are never re-examined",
+            instance=inst + ":fixpoint")
+        return
+    w = whiles[-1]
+    fors = [l for l in loops if isinstance(l, ast.For)]
+    # shape A: flag-controlled rescan over a snapshot of all vertices
+    flag = w.test.id if isinstance(w.test, ast.Name) else None
+    if flag and fors:
+        snap_ok = False
+        it = fors[0].iter
+        src = it
+        if isinstance(it, ast.Name):
+            for n in ast.walk(w):
+                if isinstance(n, ast.Assign) and dotted(n.targets[0]) == it.id:
+                    src = n.value
+        st = dotted(src)
+        snap_ok = ("_out_dict" in st or "vertices()" in st) and \
+            st.startswith(("list(", "tuple(", "sorted("))
+        set_true = any(isinstance(n, ast.Assign)
+                       and dotted(n.targets[0]) == flag
+                       and isinstance(n.value, ast.Constant)
+                       and n.value.value is True
+                       for s in cond.body for n in ast.walk(s))
+        set_false = any(isinstance(n, ast.Assign)
+                        and dotted(n.targets[0]) == flag
+                        and isinstance(n.value, ast.Constant)
+                        and n.value.value is False for n in w.body)
+        if snap_ok and set_true and set_false:
+            r.ok("RF1", inst + ":fixpoint", loc(f, w), "",
+                 "rescans a snapshot of all vertices until a pass deletes "
+                 "nothing")
+        else:
+            why = []
+            if not snap_ok:
+                why.append("the pass does not iterate over a fresh snapshot "
+                           f"of all vertices (`{st[:60]}`)")
+            if not set_true:
+                why.append(f"`{flag}` is not set when a vertex is deleted")
+            if not set_false:
+                why.append(f"`{flag}` is not reset at the start of a pass")
+            r.violation("RF1", f"{f.fq}|rescan", loc(f, w), "while " + flag,
+                        "; ".join(why) + ": pruning can stop before the "
+                        "fixpoint", instance=inst + ":fixpoint")
+        return
+    # shape B: worklist
+    pushes = [n for n in ast.walk(w) if isinstance(n, ast.Call)
+              and isinstance(n.func, ast.Attribute)
+              and n.func.attr in ("extend", "append", "appendleft",
+                                  "extendleft", "update", "add")]
+    block_txt = " ".join(dotted(s) for s in cond.body)
+    # names pushed, with their definitions in the deletion block
+    pushed_src = ""
+    for pcall in pushes:
+        for a in pcall.args:
+            pushed_src += " " + dotted(a)
+            for nm in ast.walk(a):
+                if isinstance(nm, ast.Name):
+                    for s in cond.body:
+                        for n in ast.walk(s):
+                            if isinstance(n, ast.Assign) and dotted(
+                                    n.targets[0]) == nm.id:
+                                pushed_src += " " + dotted(n.value)
+    has_out = "neighbors_out" in pushed_src or "_out_dict" in pushed_src
+    has_in = "neighbors_in" in pushed_src or "_in_dict" in pushed_src
+    if has_out and has_in:
+        r.ok("RF1", inst + ":fixpoint", loc(f, w), "",
+             "worklist re-queues both in- and out-neighbours of a deleted "
+             "vertex")
+    else:
+        miss = [k for k, v in (("out-neighbours", has_out),
+                               ("in-neighbours", has_in)) if not v]
+        r.violation(
+            "RF1", f"{f.fq}|worklist", loc(f, d), dotted(d),
+            f"the worklist does not re-queue the deleted vertex's "
+            f"{' and '.join(miss)}: a neighbour that just lost its last "
+            f"{'incoming' if 'out-neighbours' in miss else 'outgoing'} edge "
+            "is never re-examined, so the result still contains a vertex "
+            "without an incoming or outgoing edge",
+            instance=inst + ":fixpoint")
